@@ -185,7 +185,8 @@ Proof. exact hull_ordered. Qed.
 Check C01_hull_ordered : forall lo ts, ts <> [] -> ordered_from lo ts -> hull_unwrap ts = first_last_span ts.
 Print Assumptions C01_hull_ordered.
 
-(* ---- LongSentences as fixed (be8029b): total on every token list, spans inside the text ---- *)
+(* ---- LongSentences as it is now (be8029b: hull instead of first/last; 1bab09f: from the first token
+   that is not whitespace): total on every token list, spans inside the text ---- *)
 Theorem C01_long_sentence_span : forall ts,
   (exists l, long_sentences ts = Ok l) /\
   forall n l, Forall (fun t => sstart (tspan t) <= n /\ send (tspan t) <= n) ts ->
@@ -197,7 +198,41 @@ Check C01_long_sentence_span : forall ts,
               long_sentences ts = Ok l -> Forall (fun sp => sstart sp <= send sp /\ send sp <= n) l.
 Print Assumptions C01_long_sentence_span.
 
-(* ---- History: what the fixed findings looked like in the model (corpus cases F1, F2) ---- *)
+(* `sentence[first..]` of 1bab09f: never out of range, never empty for a non-empty sentence; the slice
+   starts at the first token that is not whitespace (everything before it is), or is the whole sentence
+   when there is none *)
+Theorem C01_long_sentence_visible_slice : forall s,
+  (s <> [] -> slice_from s (first_visible s) = Ok (skipn (first_visible s) s) /\ skipn (first_visible s) s <> []) /\
+  ((exists x r, skipn (first_visible s) s = x :: r /\ flag F_WS x = false /\
+                Forall (fun t => flag F_WS t = true) (firstn (first_visible s) s) /\
+                visible_hull s = hull_unwrap (x :: r)) \/
+   (Forall (fun t => flag F_WS t = true) s /\ visible_hull s = hull_unwrap s)).
+Proof. exact (fun s => conj (visible_slice s) (visible_hull_spec s)). Qed.
+Check C01_long_sentence_visible_slice : forall s,
+  (s <> [] -> slice_from s (first_visible s) = Ok (skipn (first_visible s) s) /\ skipn (first_visible s) s <> []) /\
+  ((exists x r, skipn (first_visible s) s = x :: r /\ flag F_WS x = false /\
+                Forall (fun t => flag F_WS t = true) (firstn (first_visible s) s) /\
+                visible_hull s = hull_unwrap (x :: r)) \/
+   (Forall (fun t => flag F_WS t = true) s /\ visible_hull s = hull_unwrap s)).
+Print Assumptions C01_long_sentence_visible_slice.
+
+(* ---- Go::parse, the `go:` directive cut as it is now (017736b; was finding F30): with actual.end inside
+   the source (without_initiators: source.len() - k) it never panics, wherever the first newline is;
+   nothing is linted iff the directive line is the whole block, otherwise source[newline..actual.end] ---- *)
+Theorem C01_go_directive_total : forall actual terminator (src : text),
+  send actual <= length src ->
+  exists r, go_directive_cut actual terminator src = Ok r /\
+            (r = None <-> send actual <= terminator) /\
+            (forall c, r = Some c -> c = slice src terminator (send actual) /\ length c = send actual - terminator).
+Proof. exact go_directive_total. Qed.
+Check C01_go_directive_total : forall actual terminator (src : text),
+  send actual <= length src ->
+  exists r, go_directive_cut actual terminator src = Ok r /\
+            (r = None <-> send actual <= terminator) /\
+            (forall c, r = Some c -> c = slice src terminator (send actual) /\ length c = send actual - terminator).
+Print Assumptions C01_go_directive_total.
+
+(* ---- History: what the fixed findings looked like in the model (corpus cases F1, F2, F30) ---- *)
 Theorem C01_long_sentence_span_old_refuted :
   long_sentences_old f2_witness = Panic PSpanOrder /\ exists l, long_sentences f2_witness = Ok l /\ l = [mkspan 3 91].
 Proof. exact long_sentences_old_refuted. Qed.
@@ -214,24 +249,27 @@ Check C01_invert_old_refuted :
   run_on_chunk_f the_how_old f1_toks = Panic PIndex.
 Print Assumptions C01_invert_old_refuted.
 
-(* ---- witnesses on the current code: the premises are necessary (open findings F27, F30) ---- *)
-Theorem C01_token_past_end_refuted : forall leaf oracle,
-  send (tspan f27_tok) > length f27_src /\
-  matches leaf oracle (PWordSet [w_a; w_an]) [f27_tok] f27_src = Panic PIndex /\
-  run_on_chunk leaf oracle (PSeq [PWordSet [w_a; w_an]]) [f27_tok] f27_src = Panic PIndex.
-Proof. exact token_past_end_refuted. Qed.
-Check C01_token_past_end_refuted : forall leaf oracle,
-  send (tspan f27_tok) > length f27_src /\
-  matches leaf oracle (PWordSet [w_a; w_an]) [f27_tok] f27_src = Panic PIndex /\
-  run_on_chunk leaf oracle (PSeq [PWordSet [w_a; w_an]]) [f27_tok] f27_src = Panic PIndex.
-Print Assumptions C01_token_past_end_refuted.
+(* F30 (before 017736b): `//go:build x\n//` made Span::is_empty() compute 12 - 14 *)
+Theorem C01_go_directive_old_refuted :
+  go_directive_cut_old (mkspan 2 12) 12 (map N.of_nat [103; 111; 58; 98; 117; 105; 108; 100; 32; 120]) = Panic PUnderflow.
+Proof. exact go_directive_old_refuted. Qed.
+Check C01_go_directive_old_refuted :
+  go_directive_cut_old (mkspan 2 12) 12 (map N.of_nat [103; 111; 58; 98; 117; 105; 108; 100; 32; 120]) = Panic PUnderflow.
+Print Assumptions C01_go_directive_old_refuted.
 
-Theorem C01_go_directive_refuted :
-  go_directive_cut (mkspan 2 12) 12 (map N.of_nat [103; 111; 58; 98; 117; 105; 108; 100; 32; 120]) = Panic PUnderflow.
-Proof. exact go_directive_refuted. Qed.
-Check C01_go_directive_refuted :
-  go_directive_cut (mkspan 2 12) 12 (map N.of_nat [103; 111; 58; 98; 117; 105; 108; 100; 32; 120]) = Panic PUnderflow.
-Print Assumptions C01_go_directive_refuted.
+(* ---- the premise "tokens inside the source" of C01_pattern_bounded is necessary: the token that F27
+   (fixed by 548c418) used to produce — 4..6 in a 5-character source — makes WordSet panic.  Since the
+   fix the front-ends establish the premise; the search monitors it on every document. ---- *)
+Theorem C01_premise_tokens_inside_necessary : forall leaf oracle,
+  send (tspan f27_tok) > length f27_src /\
+  matches leaf oracle (PWordSet [w_a; w_an]) [f27_tok] f27_src = Panic PIndex /\
+  run_on_chunk leaf oracle (PSeq [PWordSet [w_a; w_an]]) [f27_tok] f27_src = Panic PIndex.
+Proof. exact premise_tokens_inside_necessary. Qed.
+Check C01_premise_tokens_inside_necessary : forall leaf oracle,
+  send (tspan f27_tok) > length f27_src /\
+  matches leaf oracle (PWordSet [w_a; w_an]) [f27_tok] f27_src = Panic PIndex /\
+  run_on_chunk leaf oracle (PSeq [PWordSet [w_a; w_an]]) [f27_tok] f27_src = Panic PIndex.
+Print Assumptions C01_premise_tokens_inside_necessary.
 
 (* ---- the tie to the sources: every `impl … Pattern for` site of /repo (table regenerated on every
    run) is one of the 23 the model knows, lies in harper-core/src/patterns/, and vice versa; the
@@ -280,4 +318,15 @@ Example C01_steps_nonvacuous :
   matches_c ex_leaf ex_oracle the_how_now (skipn 4 f1_toks) f1_src = (Ok 0, 7) /\
   psize the_how_now = 8 /\ rdepth the_how_now = 0 /\ rdepth (PRepeat (PSeq [PRepeat PAny 0]) 1) = 2 /\
   snd (matches_c ex_leaf ex_oracle (PRepeat (PSeq [PRepeat PAny 0]) 1) f1_toks f1_src) = 14.
+Proof. repeat split; vm_compute; reflexivity. Qed.
+
+(* the `go:` cut and the visible slice on concrete inputs: `//go:build x\n//a` keeps `\n//a`; a sentence
+   that starts with two whitespace tokens is flagged from its third token *)
+Example C01_go_and_visible_nonvacuous :
+  go_directive_cut (mkspan 2 16) 12 (map N.of_nat [47; 47; 103; 111; 58; 98; 117; 105; 108; 100; 32; 120; 10; 47; 47; 97])
+    = Ok (Some (map N.of_nat [10; 47; 47; 97])) /\
+  go_directive_cut (mkspan 2 12) 12 (map N.of_nat [47; 47; 103; 111; 58; 98; 117; 105; 108; 100; 32; 120; 10; 47; 47]) = Ok None /\
+  first_visible [hs 6 7; hs 7 8; hw 8 10; hs 10 11; hw 11 14] = 2 /\
+  visible_hull [hs 6 7; hs 7 8; hw 8 10; hs 10 11; hw 11 14] = Ok (mkspan 8 14) /\
+  visible_hull [hs 6 7; hs 7 8] = Ok (mkspan 6 8).
 Proof. repeat split; vm_compute; reflexivity. Qed.
